@@ -26,6 +26,7 @@ type cop struct {
 	StopAt int           `json:"stop,omitempty"`
 	Now    int64         `json:"now,omitempty"` // clock: absolute instant to move to
 	CbID   int           `json:"cb,omitempty"`
+	CbMode string        `json:"cbmode,omitempty"` // "" | once (unregisters itself when first invoked) | adv (takes longer than short TTLs: moves the clock)
 }
 
 type kvp struct {
@@ -63,7 +64,11 @@ type ttlModel struct {
 	def      time.Duration
 	defKnown bool // DefaultExpiration() must report def exactly
 	cbID     int
+	cbMode   string
 }
+
+// cbAdvance: how far an "adv" callback moves the clock (longer than the short TTLs in play)
+const cbAdvance = 40
 
 func (m *ttlModel) exp(d time.Duration, now int64) int64 {
 	if d == cache.DefaultExpiration {
@@ -124,9 +129,11 @@ func (m *ttlModel) class(k int, now int64) string {
 }
 
 type seqInst struct {
-	c     cacheAPI
-	cbs   []cbrec
-	count int // Count() after the previous op
+	c        cacheAPI
+	cbs      []cbrec
+	count    int   // Count() after the previous op
+	advTo    int64 // "adv" callbacks move the virtual clock to this instant (0: leave it)
+	onceDone bool  // "once" callbacks unregister themselves on their first invocation
 }
 
 type seqCase struct {
@@ -366,8 +373,22 @@ func applyCop(in *seqInst, op cop, exotic bool) (r cres) {
 		if op.CbID == 0 {
 			c.SetEvictedCallback(nil)
 		} else {
-			id := op.CbID
-			c.SetEvictedCallback(func(k int, v any) { in.cbs = append(in.cbs, cbrec{k, v, id}) })
+			id, mode := op.CbID, op.CbMode
+			in.onceDone = false
+			c.SetEvictedCallback(func(k int, v any) {
+				in.cbs = append(in.cbs, cbrec{k, v, id})
+				switch mode {
+				case "once":
+					if !in.onceDone {
+						in.onceDone = true
+						c.SetEvictedCallback(nil)
+					}
+				case "adv":
+					if in.advTo != 0 {
+						vshim.SetVNow(in.advTo)
+					}
+				}
+			})
 		}
 	case "Clock":
 		// handled by the engine
@@ -444,8 +465,14 @@ func (sr *seqRunner) runSeqCase(cs *seqCase) (nontrivial bool, fp uint64) {
 		// expired entries present at this moment (for DeleteExpired / bounds)
 		var rs []cres
 		for _, in := range insts {
+			in.advTo = 0
+			if mdl.cbMode == "adv" {
+				in.advTo = now + cbAdvance
+			}
 			rs = append(rs, applyCop(in, op, cs.Exotic))
+			vshim.SetVNow(now) // every instance starts every call at the same instant
 		}
+		cbFired := len(rs) > 0 && len(rs[0].Cbs) > 0
 		e, hit := mdl.vis(op.K, now)
 		if !keyed {
 			e, hit = nil, false
@@ -674,7 +701,12 @@ func (sr *seqRunner) runSeqCase(cs *seqCase) (nontrivial bool, fp uint64) {
 						bad("callback", "callback not the one in force", "%s: DeleteExpired fired callback #%d, in force #%d", step, name, cb.ID, mdl.cbID)
 					}
 				}
-				if mdl.cbID != 0 {
+				if mdl.cbID != 0 && mdl.cbMode == "once" {
+					// the callback unregisters itself mid-pass: either binding is acceptable
+					if len(r.Cbs) < 1 && in.count-r.Count > 0 {
+						bad("callback", "DeleteExpired removes entries without any callback", "%s: DeleteExpired removed %d entries, fired none", step, name, in.count-r.Count)
+					}
+				} else if mdl.cbID != 0 {
 					if len(r.Cbs) != in.count-r.Count {
 						bad("callback", "DeleteExpired: callbacks != entries removed", "%s: DeleteExpired fired %d callbacks, Count went %d -> %d", step, name, len(r.Cbs), in.count, r.Count)
 					}
@@ -755,7 +787,10 @@ func (sr *seqRunner) runSeqCase(cs *seqCase) (nontrivial bool, fp uint64) {
 		case "SetDefaultExpiration":
 			mdl.def, mdl.defKnown = op.D, true
 		case "SetCallback":
-			mdl.cbID = op.CbID
+			mdl.cbID, mdl.cbMode = op.CbID, op.CbMode
+			if op.CbID == 0 {
+				mdl.cbMode = ""
+			}
 		case "RangeAdv":
 			now = op.Now
 			vshim.SetVNow(now)
@@ -770,6 +805,17 @@ func (sr *seqRunner) runSeqCase(cs *seqCase) (nontrivial bool, fp uint64) {
 				if _, vis := mdl.vis(k, now); !vis {
 					me.maybeGone = true
 				}
+			}
+		}
+		// ---- side effects of callback behaviours
+		if cbFired && op.Op != "SetCallback" {
+			switch mdl.cbMode {
+			case "once":
+				mdl.cbID, mdl.cbMode = 0, ""
+			case "adv":
+				now += cbAdvance
+				vshim.SetVNow(now)
+				h.add(0xADF, uint64(now-epoch))
 			}
 		}
 		// ---- Count bounds after the call
